@@ -28,8 +28,9 @@ def C(hs, cancellable, cancels, reader=False, writer=False, closer="none", peer=
 
 
 def process_sets(quick):
-    """Bounded process sets explored exhaustively (sizes measured: 35k-60k states each for the first five,
-    0.3-0.7M for the reader/writer sets, 7.6M for the full set)."""
+    """Bounded process sets explored exhaustively (measured: 25k-56k distinct states each for the quick six,
+    0.3-1.5M for the thorough reader/writer/three-handshaker sets; the full set h1,h2,reader,writer,Close has 7.6M
+    states and three handshakers with two cancels and Close 7.0M: both were run once by hand, no violation)."""
     s = [
         C(["h1", "h2"], ["h2"], ["h2"], closer="Close"),
         C(["h1", "h2"], ["h2"], ["h2"], closer="Close", peer="stall"),
@@ -44,9 +45,10 @@ def process_sets(quick):
             C(["h1", "h2"], ["h2"], [], closer="Close"),
             C(["h1"], ["h1"], ["h1"], reader=True, writer=True, closer="Close"),
             C(["h1", "h2"], ["h2"], ["h2"], reader=True, closer="CloseWrite"),
+            C(["h1", "h2"], ["h2"], ["h2"], writer=True, closer="Close"),
             C(["h1", "h2", "h3"], ["h2", "h3"], ["h2"]),
-            C(["h1", "h2", "h3"], ["h2", "h3"], ["h2", "h3"], closer="Close"),
-            C(["h1", "h2"], ["h2"], ["h2"], reader=True, writer=True, closer="Close"),
+            C(["h1", "h2", "h3"], ["h2", "h3"], ["h2", "h3"]),
+            C(["h1", "h2", "h3"], ["h2"], ["h2"], closer="Close"),
         ]
     return s
 
@@ -304,7 +306,7 @@ def run(ctx):
     rejected = [i for i in range(len(ordered)) if i not in acc]
 
     # ---- 7. reproduce rejections (re-run the same scenario alone, re-validate alone)
-    seen_sigs = {}
+    seen_sigs, unrepro = {}, []
     for i in sorted(rejected, key=lambda i: ordered[i]["mode"] != "replay")[:10]:   # replayed TLC schedules first; bounded work
         r = ordered[i]
         ok0, why0 = diagnose(ctx, r, "rej%d" % i)
@@ -324,28 +326,40 @@ def run(ctx):
                 why0 = why
                 break
         if not repro:
-            raise vlib.Machinery("rejection of scenario %d (%s, first unexplained event %s) did not reproduce in 6 re-runs (3 along the observed order)" % (r["sc"], r["mode"], why0))
+            unrepro.append("rejection of scenario %d (%s, first unexplained event %s) did not reproduce in 6 re-runs (3 along the observed order)" % (r["sc"], r["mode"], why0))
+            continue
         ctx.finding("reject:%s:%s" % (r["cfg"]["peer"], why0),
                     "recorded execution is not a behaviour of UConnConc; first unexplained event: %s (mode %s)" % (why0, r["mode"]),
                     {"scenario": r["scen"], "events": flat_events(r)})
-    for j in unexplained[:4]:
-        r = bare[j]
-        o = obs_all[j]
-        repro = False
-        for k in range(8):
-            again, _ = run_harness(ctx, [dict(r["scen"], id=1)], "reb%d_%d" % (j, k), par=1)
-            again[0]["scen"] = dict(r["scen"], id=1)
-            o2 = summary(again[0])
-            res = run_mc(ctx, [bykey[cfg_key(o["cfg"])]], [o2], "reb%d_%d" % (j, k), workers=4)
-            if not res.tagged("HIT"):
-                repro, o = True, o2
-                break
-        if not repro:
-            raise vlib.Machinery("unexplained hook-free outcome of scenario %d did not reproduce in 8 re-runs: %s" % (r["sc"], json.dumps(o)[:600]))
+    # hook-free outcomes the model cannot reach: re-run a batch of fresh seeds of the same process set and let the
+    # model judge again; any outcome that is again unreachable reproduces the finding
+    done_sets = set()
+    for j in unexplained:
+        r, o = bare[j], obs_all[j]
+        k = cfg_key(o["cfg"])
+        if k in done_sets or len(done_sets) >= 3:
+            continue
+        done_sets.add(k)
+        batch = [dict(r["scen"], id=n + 1, seed=rnd.randrange(1 << 30)) for n in range(40)]
+        batch[0]["seed"] = r["scen"]["seed"]
+        again, _ = run_harness(ctx, batch, "reb%d" % j, par=8)
+        obs2 = [summary(x) for x in again]
+        res = run_mc(ctx, [bykey[k]], obs2, "reb%d" % j, workers=4)
+        hits = {int(h) for h in res.tagged("HIT")}
+        bad = [obs2[n] for n in range(len(obs2)) if (n + 1) not in hits]
+        if not bad:
+            unrepro.append("unexplained hook-free outcome of scenario %d did not reproduce in 40 re-runs: %s" % (r["sc"], json.dumps(o)[:600]))
+            continue
+        o = bad[0]
         cls = {p: ("nil" if e["isnil"] else "ctx" if e["ctxerr"] and e["err"] == e["ctxerr"] else "err") for p, e in o["ret"].items() if e["err"] != "absent"}
         ctx.finding("outcome:%s:%s" % (o["cfg"]["peer"], "hang" if o["hung"] else "inconsistent"),
-                    "outcome of a hook-free run is not a reachable outcome of UConnConc: rets=%s complete=%s closed=%s tmax=%dms hung=%s" % (cls, o["complete"], o["closed"], o["tmax"], o["hung"]),
+                    "outcome of a hook-free run is not a reachable outcome of UConnConc (%d of 40 re-runs): rets=%s complete=%s closed=%s tmax=%dms hung=%s" % (len(bad), cls, o["complete"], o["closed"], o["tmax"], o["hung"]),
                     {"scenario": r["scen"], "outcome": o})
+
+    if unrepro and not ctx.findings:
+        raise vlib.Machinery(unrepro[0])
+    for u in unrepro:
+        ctx.note(u)
 
     # ---- 8. binding canaries on accepted traces (must be rejected)
     good = [ordered[i] for i in sorted(acc)]
